@@ -8,15 +8,18 @@ VERIF = os.path.dirname(os.path.dirname(os.path.abspath(__file__)))
 # pid -> (technique, level text, level note, design ref)
 CLAIMS = {
  "C07": ("AST/CFG lints: call-signature binding of all resolved internal calls, dominator queries on solve's CFG, "
-         "registry set-comparison code<->code<->docs, raise inventory over the call graph, nullness typestate of exit_info",
+         "registry set-comparison code<->code<->docs, raise inventory over the call graph, nullness typestate of exit_info, "
+         "definite-assignment data-flow over every function reachable from solve, guard check of the package's own parameter updates (second update raises)",
          "Static decision, over every call site / every path of solve and solve_main, of the structural clauses behind 'bad input is "
          "reported, not raised': every internal call binds to its callee's signature; every input-error assignment is first-error-wins "
          "and the graceful return dominates everything that can evaluate; each documented invalid-argument class has a guard; exit-code "
          "and parameter registries agree between code, result object and docs; unknown key ends in ValueError; explicit raises reachable "
-         "from solve are documented/opt-in; exit_info is never None where it is dereferenced. Not a claim about implicit NumPy/SciPy exceptions.",
+         "from solve are documented/opt-in; exit_info is never None where it is dereferenced; no local can be read before assignment (exceptions frozen with reasons, their "
+         "premises such as a parameter lower bound re-checked); every parameter update made by the package itself is guarded so that it cannot be a second update of a key the user set. Not a claim about implicit NumPy/SciPy exceptions.",
          "Trusted: CPython ast, purpose-built receiver resolution (0 unresolved calls, reported in evidence), frozen table of documented invalid-argument classes in dfv/tables.py.",
          "DESIGN.md 4/C07"),
- "C20": ("AST table agreement (to_dict / from_dict / __init__ / __str__), nullable-flow of None->NaN per field, guard analysis on __str__'s CFG",
+ "C20": ("AST table agreement (to_dict / from_dict / __init__ / __str__), nullable-flow of None->NaN per field, belief-based (contradiction) guard analysis on __str__'s CFG, "
+         "value-flow query that no raw return value of objfun/h/prox_uh/nsamples reaches a result field by plain copies",
          "Static decision of the structural clauses of the JSON round trip: keys written = keys read = constructor fields, each routed to the "
          "field of the same name; only plain data leave to_dict and NaN replacement covers the whole dict; None is mapped back to NaN for every "
          "float-valued field; __str__ never applies a numeric conversion or len() to a possibly-None field; diagnostic columns hold scalars. "
@@ -63,7 +66,8 @@ CLAIMS = {
          "Trusted: CPython ast; CFG; normalisation of comparisons over a total order (counters are integers).",
          "DESIGN.md 4/C10"),
  "C01": ("abstract interpretation over a coordinate-frame domain {U,A,R,?} with exactness facts (context-sensitive, one run per configuration of scaling/projections/"
-         "regulariser), reaching-definition routing check of every evaluate_objective argument, affine normal forms for shift_base, who-may-write inventory",
+         "regulariser/bound pattern), reaching-definition routing check of every evaluate_objective argument, affine normal forms for shift_base, who-may-write inventory, "
+         "reflection equivariance of the two x0 clamp stanzas",
          "Static decision of 'which operation is last on every path': objfun has one call site; every evaluated point is assigned only from Model.as_absolute_coordinates; "
          "in every configuration each clamp/scaling/callback site has frame-consistent operands and the value reaching objfun and soln.x carries the facts lo:user.xl and "
          "hi:user.xu (no arithmetic after the last clamp against the user's bounds); xbase/sl/su are written only by Model.__init__/shift_base and shift_base keeps sl+xbase, "
@@ -78,10 +82,10 @@ CLAIMS = {
          "Trusted: CPython ast; the frame algebra of dfv/frames.py.",
          "DESIGN.md 4/C06"),
  "C09": ("frame/exactness interpretation under the configurations with projections, mutation inventory of every list that may hold user projections, interpreter run with "
-         "scaling and projections both requested",
+         "scaling and projections both requested, lower-bound check of the sweep budget (parameter table range + every max_iter argument)",
          "Static decision that with projections every x handed to objfun (x0 included) is the unmodified output of a Dykstra call whose last projector clamps against copies of "
          "the user's bounds; that the projection list is a fresh list with the box appended once after all user projectors and never mutated afterwards; that scaling is None "
-         "whenever projections are given. The sqrt(p*tol) distance bound itself is numerical (its premises are C15-3/4).",
+         "whenever projections are given; that every Dykstra call performs at least one sweep (max_iter >= 1 at each call site). The sqrt(p*tol) distance bound itself is numerical (its premises are C15-3/4).",
          "Trusted: dykstra summary (result = last projector's output, C15-2); at least one sweep runs.",
          "DESIGN.md 4/C09"),
  "C11": ("must-pass-through queries pairing the Jacobian assignment with the label snapshot, value-flow alias query (no .copy()-free path from Model.eval_num to the stored labels), "
@@ -91,21 +95,25 @@ CLAIMS = {
          "`scaling_changes is not None and jacmin is not None`). Equality with an independent fit is numerical and not decided.",
          "Trusted: CPython ast; CFG; np.ndarray.copy() returns a fresh array.",
          "DESIGN.md 4/C11"),
- "C12": ("reaching definitions on every return of trsbox/alt_trust_step, shape check of d_within_bounds, loop-form lint and call-graph recursion check",
-         "Static decision of two structural clauses of the pure-Python path only: every returned step comes out of d_within_bounds (clamp + pinning + '- xopt'), and every loop of "
+ "C12": ("reaching definitions on every return of trsbox/alt_trust_step, shape check of d_within_bounds, loop-form lint and call-graph recursion check, "
+         "reflection equivariance of the lower/upper bound blocks (statements translated to sympy, reflected, compared as canonical forms)",
+         "Static decision of three structural clauses of the pure-Python path only: every returned step comes out of d_within_bounds (clamp + pinning + '- xopt'); the lower-bound and "
+         "upper-bound handling of trsbox/alt_trust_step/d_within_bounds are exact reflections of each other (x -> -x); and every loop of "
          "the sub-problem routines is a for over a range fixed before the loop with no recursion (the routine returns for every input). Norm bound, model decrease, Cauchy decrease "
          "and gnew = g + H d are numerical and NOT decided; the optional Fortran back end is outside the analysed source.",
          "Trusted: CPython ast; CFG.",
          "DESIGN.md 4/C12"),
- "C13": ("definition/mutation inventory of the projector list in each ctrsbox_* routine, dominator queries in Controller.trust_region_step, frame interpretation of the step routines, loop-form lint",
+ "C13": ("definition/mutation inventory of the projector list in each ctrsbox_* routine, dominator queries in Controller.trust_region_step, frame interpretation of the step routines (model_value callback frame included), loop-form lint, reflection equivariance of trsbox_linear's bound handling",
          "Static decision that the trust-region ball pball(., centre, radius) of the routine's own centre/radius is the last set handed to Dykstra over a fresh copy of the caller's "
          "list; that every regularised step passes `pred_reduction < 0 => d = 0` with pred_reduction computed from the returned (gopt, H, d); frame agreement at all arithmetic/clamp/"
          "dykstra sites of the step routines; totality. Box to 1e-12, global optimality to 1e-6 and ||d|| <= Delta(1+1e-8) are numerical and NOT decided.",
          "Trusted: dykstra summary (C15-2); CPython ast.",
          "DESIGN.md 4/C13"),
- "C14": ("symbolic comparison of allocation/return shapes and a must-pass-through/last-write check of the clamp loop in both random-direction generators",
+ "C14": ("symbolic comparison of allocation/return shapes and a must-pass-through/last-write check of the clamp loop in both random-direction generators, "
+         "interval reasoning (+/-c*delta, min/max, signs of relative bounds) over the coordinate-step stores, reflection equivariance of the lower/upper handling in get_scale / the generators / initialise_coordinate_directions",
          "Static decision of the generator clauses only: at least num_pts columns are allocated and exactly the first num_pts returned; the last write to every returned column on every "
-         "path is a clamp against (lower, upper) over range(num_pts). Distances, affine independence and conditioning of the initial set are numerical and NOT decided.",
+         "path is a clamp against (lower, upper) over range(num_pts); each step stored by initialise_coordinate_directions lies in [-2*delta, 2*delta]; the "
+         "lower- and upper-bound branches are exact reflections of each other. Distances, affine independence and conditioning of the initial set are numerical and NOT decided.",
          "Trusted: CPython ast; CFG.",
          "DESIGN.md 4/C14"),
  "C15": ("counting data-flow for the sweep counter, reaching definitions of the returned variable, placement/shape check of the stopping accumulator, symbolic execution of one "
@@ -123,20 +131,20 @@ CLAIMS = {
          "Trusted: CPython ast; CFG; np.dot(J, .) is linear.",
          "DESIGN.md 4/C16"),
  "C17": ("sibling cross-check of the per-point record across change_point/swap_points/add_new_point/add_new_sample, shape analysis of sample-count and objective stores, "
-         "complete decision tables of selection guards, bound check of every store to the incumbent index",
+         "complete decision tables of selection guards, bound check of every store to the incumbent index, guard check of the incumbent re-selection after re-sampling, alias query for the saved-point slot",
          "Static decision that the five per-point arrays move together under relocation/append/replace/re-sample, that sample counts are 1 on replace and +1 on re-sample, that each stored "
-         "objective is sumsq(residual)[+h], that incumbent moves and the final selection have correct tables for ordering, ties, NaN and None, and that kopt stays below npt(). "
+         "objective is sumsq(residual)[+h], that incumbent moves and the final selection have correct tables for ordering, ties, NaN and None, that kopt stays below npt(), that re-selection after a re-sample is skipped only when every value is NaN, and that the saved record never aliases live arrays. "
          "'stored residual is the arithmetic mean of its samples' is NOT decided.",
          "Trusted: CPython ast; IEEE NaN comparison semantics in the table evaluator.",
          "DESIGN.md 4/C17"),
  "C18": ("forward data-flow of the ordering fact delta >= rho with max/min/literal-factor inference rules, method summaries and validated option implications; writer inventory of rho "
-         "with parameter-table ranges; growth-cap lint; lock-step (stale copy) check of Controller.rhoend vs solve_main's rhoend; per-column append-count data-flow and docs agreement",
+         "with parameter-table ranges; growth-cap lint; lock-step (stale copy) check of Controller.rhoend vs solve_main's rhoend; per-column append-count data-flow and docs agreement; reflection equivariance of the bound test in done_with_current_rho; counting data-flow for the run counter recorded in the table",
          "Static decision that delta >= rho is provable at every break/continue/return and recording point, that rho has its four writers with non-increasing reducer cases, that growth "
          "of delta is wrapped in min(., 1e10), that the controller's and the main loop's rhoend are rescaled identically, and that the diagnostic table gets exactly one append per "
          "column per recorded iteration with documented columns. rho > 0, rhoend <= rho and monotone best objective depend on values and are NOT decided.",
          "Trusted: rho >= 0; rho <= rhobeg (from the writer inventory; geometric-mean case of reduce_rho assumed).",
          "DESIGN.md 4/C18"),
- "C19": ("guarded taint over the call graph (global-RNG uses vs documented random options, dominance-based guards), nondeterminism/hidden-state inventory, flow-sensitive ownership "
+ "C19": ("guarded taint over the call graph (global-RNG uses vs documented random options, dominance-based guards; documented random options proved off by default from the parameter table), nondeterminism/hidden-state inventory, flow-sensitive ownership "
          "lattice {caller, fresh} over solve with alias summaries of callees",
          "Static decision that every numpy.random use reachable from solve is guarded on every call path by an option documented as random (one checked exception), that no other "
          "nondeterminism or hidden state exists, and that caller-owned mutable arguments are copied before any in-place operation and never handed on un-copied. The statement is "
